@@ -2,8 +2,11 @@
 from . import core, eng, gen, engcheck
 
 THEOREMS = ["derivable_between", "derivable_union_restart", "rerun_idempotent", "monotone_rerun", "wfSt_pushRows", "run_lattice_from", "lattice_rerun_idempotent", "restart_agg", "rerun_idempotent_agg", "std_aggPermInvariant", "rerun_idempotent_phys", "monotone_rerun_phys", "restart_phys_agg", "rerun_idempotent_phys_agg", "negA_ctx", "negA_interrupted", "runPhysLat_from", "rerun_idempotent_physLat",
-            "rerun_idempotent_physPar", "monotone_rerun_physPar", "monotone_rerun_eq_fresh_physPar", "rerun_pool_irrelevant_physPar", "history_pool_irrelevant_physPar", "tcPar_rerun", "tcPar_rerun_applies"]
-TRUSTED = ["Props/C13PhysPar.lean: the re-run theorems for ascent_par! over its concurrent physical indices - run() in one pool under one schedule, then run() again (rerun_idempotent_physPar: no panic, every row vector "
+            "rerun_idempotent_physPar", "monotone_rerun_physPar", "monotone_rerun_eq_fresh_physPar", "rerun_pool_irrelevant_physPar", "history_pool_irrelevant_physPar", "tcPar_rerun", "tcPar_rerun_applies",
+            "restart_physPar_agg", "rerun_idempotent_physPar_agg", "run_wf_extends_physPar_agg", "negPar_rerun", "negPar_rerun_applies"]
+TRUSTED = ["Props/C13PhysParAgg.lean (Proofs/PhysParAggLink.lean): the same for ascent_par! programs WITH stratified aggregation / negation - a second run() in any pool under any schedule does not panic and leaves every row vector "
+           "unchanged (rerun_idempotent_physPar_agg); restart_physPar_agg: from any value between the original rows and a completed reference run, run() ends with the reference run's facts; tied by `eng runpp` on the parallel aggregation histories",
+           "Props/C13PhysPar.lean: the re-run theorems for ascent_par! over its concurrent physical indices - run() in one pool under one schedule, then run() again (rerun_idempotent_physPar: no panic, every row vector "
            "literally unchanged) or push rows and run() again (monotone_rerun_physPar: no panic, exactly the facts of a fresh run on the union; monotone_rerun_eq_fresh_physPar) in ANY other pool under ANY other schedule; "
            "the indices a value carries are irrelevant (update_indices rebuilds them in the pool of the call); history_pool_irrelevant_physPar: the whole history computes the same facts whatever the four schedules / pools; "
            "tied by `eng runpp` on the parallel histories of this check",
@@ -229,7 +232,7 @@ def canon(c, out):
 
 
 def check(tier, replay=None):
-    return engcheck.run_property("C13", tier, modules=["AscentVerif.Props.C13", "AscentVerif.Props.C13L", "AscentVerif.Props.C13Agg", "AscentVerif.Props.C13Phys", "AscentVerif.Props.C13PhysAgg", "AscentVerif.Props.C13PhysLat", "AscentVerif.Props.C13PhysPar"], theorems=THEOREMS, trusted=TRUSTED, group="c13",
+    return engcheck.run_property("C13", tier, modules=["AscentVerif.Props.C13", "AscentVerif.Props.C13L", "AscentVerif.Props.C13Agg", "AscentVerif.Props.C13Phys", "AscentVerif.Props.C13PhysAgg", "AscentVerif.Props.C13PhysLat", "AscentVerif.Props.C13PhysPar", "AscentVerif.Props.C13PhysParAgg"], theorems=THEOREMS, trusted=TRUSTED, group="c13",
                                  build=build, oracle=oracle, known=known, canon=canon, what="histories of run / push on compiled programs",
                                  rule="generated aggregation-free programs x histories run; (run | push facts into any relations incl. derived ones; run){1..3}; "
                                       "after an unmodified re-run every relation must be unchanged as a set, after pushes it must equal the naive least model "
